@@ -144,6 +144,19 @@ def toy_binary_scenario(draw, cap=400, max_phases=3, allow_profile=True, sites=N
         sc["gbe"] = min(2 * kf * KMAX[p["site"]] * p["gamma"] for p in gbs)
     if draw(st.integers(0, 3)) == 3:
         sc["nucdens"] = {"grainSize": 10 ** draw(st.floats(-1, 2.5)), "aspectRatio": draw(st.floats(1, 3)), "dislocationDensity": 10 ** draw(st.floats(10, 15))}
+    # rarely used model options (each off in the simplest example)
+    opts = {}
+    if draw(st.integers(0, 4)) == 4:
+        opts["betaBinary"] = 2                      # impingement rate computed like the multicomponent one
+    if draw(st.integers(0, 4)) == 4:
+        opts["effectiveDiffusion"] = False          # diffusion distance = particle radius
+    if draw(st.integers(0, 5)) == 5:
+        opts["theta"] = draw(st.sampled_from([1.0, 4.0, 4 * math.pi]))
+    if nph > 1 and draw(st.integers(0, 3)) == 3:
+        k = draw(st.integers(1, nph - 1))
+        opts["parents"] = {phases[k]["name"]: [phases[j]["name"] for j in range(k) if draw(st.booleans())] or [phases[0]["name"]]}
+    if opts:
+        sc["options"] = opts
     return sc
 
 
